@@ -84,6 +84,10 @@ def check(run):
     # ---- NULL into re-used destinations: a NULL element / field / value (and a NULL or empty whole value) decoded into a variable that
     #      already holds a non-NULL value there must leave the zero value, for every container representation (model-free predicate),
     #      and the Go-representation model must agree on the very same cases
+    # Encode of a value holding NULLs / nil pointers leaves its source alone
+    sf0, sn0 = cc.source_findings(cases)
+    findings += sf0
+    evaluations += sn0
     rf, rn = cc.reuse_findings(recs, null_only=True)
     findings += rf
     evaluations += rn
